@@ -255,10 +255,70 @@ def fam_hessenberg(rng, n):
     return a
 
 
+def fam_skewblock(rng, n):
+    """quasi upper triangular: 2x2 blocks [[a, b], [-c, a]] (b*c > 0: complex pair a +- i sqrt(bc)) with
+    |b|/|c| spanning 1e-8..1e8, some pairs sharing their real part, real eigenvalues in between and
+    below, random coupling above the blocks: the back-substitution of hqr2 crosses badly scaled
+    blocks (its pivot choices matter)"""
+    a = [[0.0] * n for _ in range(n)]
+    i = 0
+    shared = dy(rng, 3, 16)
+    while i < n:
+        if i + 1 < n and rng.random() < 0.6:
+            re = shared if rng.random() < 0.5 else dy(rng, 3, 16)
+            im = rng.uniform(0.2, 2.0)
+            mode = rng.random()
+            if mode < 0.4:       # |b| / |c| skewed, |b c| = im^2 (one huge entry)
+                k = 10.0 ** rng.choice([-8, -6, -4, -2, 0, 0, 2, 4, 6, 8])
+                b, c = im * k, im / k
+            elif mode < 0.7:     # a tiny super-diagonal entry, everything else O(1)
+                b, c = im * 10.0 ** -rng.randint(2, 9), im
+            else:                # a tiny sub-diagonal entry
+                b, c = im, im * 10.0 ** -rng.randint(2, 9)
+            if rng.random() < 0.5:
+                b, c = -b, -c
+            a[i][i] = re; a[i][i + 1] = b; a[i + 1][i] = -c; a[i + 1][i + 1] = re
+            i += 2
+        else:
+            a[i][i] = shared if rng.random() < 0.3 else dy(rng, 3, 16); i += 1
+    for r in range(n):
+        for c2 in range(r + 1, n):
+            if a[r][c2] == 0.0 and not (c2 == r + 1 and a[c2][r] != 0.0):
+                a[r][c2] = rng.uniform(-1, 1) if rng.random() < 0.8 else 0.0
+    return a
+
+
+def fam_weakcoupled(rng, n):
+    """symmetric, the last row/column coupled to the rest only through entries of size 1e-7..1e-14
+    (tred2's scale is tiny but not zero), possibly with a small overall norm"""
+    a = fam_symmetric(rng, n)
+    if n > 1:
+        t = 10.0 ** -rng.randint(7, 14)
+        for j in range(n - 1):
+            v = t * rng.uniform(-1, 1)
+            a[n - 1][j] = v; a[j][n - 1] = v
+    return a
+
+
+def rescaled(fn):
+    """the same family under an overall scaling 10^k, k in -6..6 (half of the time)"""
+    def g(rng, n):
+        a = fn(rng, n)
+        if rng.random() < 0.5:
+            s = 10.0 ** rng.randint(-6, 6)
+            a = [[x * s for x in r] for r in a]
+        return a
+    return g
+
+
 FAMILIES = [("dense", fam_dense, 3), ("symmetric", fam_symmetric, 3), ("triangular", fam_triangular, 1),
             ("companion", fam_companion, 2), ("rotation", fam_rotation, 2), ("repeated", fam_repeated, 2),
             ("graded", fam_graded, 2), ("trivial", fam_trivial, 1), ("nearsym", fam_nearsym, 1),
-            ("cyclic", fam_cyclic, 1), ("hessenberg", fam_hessenberg, 1)]
+            ("cyclic", fam_cyclic, 1), ("hessenberg", fam_hessenberg, 1),
+            ("skewblock", fam_skewblock, 2), ("weakcoupled", fam_weakcoupled, 1),
+            ("scaleddense", rescaled(fam_dense), 1), ("scaledrepeated", rescaled(fam_repeated), 1),
+            ("scaledtriangular", rescaled(fam_triangular), 1), ("scaledsymmetric", rescaled(fam_symmetric), 1),
+            ("scaledweakcoupled", rescaled(fam_weakcoupled), 1)]
 
 
 # matrices on which pow / exp are in the property's scope: diagonalisable with real spectrum
